@@ -177,4 +177,27 @@ def solexaToPhredNearest (qs : Int) (q : Nat) : Bool :=
   fracLeSucc (tPowHi (2 * (q : Int) - 1)) (tPowLo (2 * qs)) &&
   fracSuccLe (tPowHi (2 * qs)) (tPowLo (2 * (q : Int) + 1))
 
+/-! ### "so they agree with each other's error probabilities"
+
+A score rounded to nearest is at most half a score from the analytic value, i.e. its
+probability (Phred) or its odds (Solexa) is within a factor 10^(1/20) of the probability it was
+converted from: `(ratio)^20 ∈ [1/10, 10]`, widened by 2^-40 for the accuracy of the float
+tables. -/
+
+/-- `(N/D)^20 ∈ [1/10, 10]` up to relative 2^-40 -/
+def withinHalfScore (N D : Nat) : Bool :=
+  D ^ 20 * (2 ^ 40 - 1) ≤ 10 * 2 ^ 40 * N ^ 20 && N ^ 20 * 2 ^ 40 ≤ 10 * (2 ^ 40 + 1) * D ^ 20
+
+/-- Phred q ↦ Solexa qs: the odds of the Solexa probability against the odds of the Phred
+    probability -/
+def oddsAgree : Prob → Prob → Bool
+  | .val ms ks, .val mp kp => ms < 2 ^ ks && mp < 2 ^ kp && mp ≠ 0 &&
+      withinHalfScore (ms * (2 ^ kp - mp)) ((2 ^ ks - ms) * mp)
+  | _, _ => false
+
+/-- Solexa qs ↦ Phred q: the Phred probability against the Solexa probability -/
+def probsAgree : Prob → Prob → Bool
+  | .val mp kp, .val ms ks => ms ≠ 0 && withinHalfScore (mp * 2 ^ ks) (ms * 2 ^ kp)
+  | _, _ => false
+
 end Biogo.Quality.Spec
